@@ -19,4 +19,11 @@ func init() {
 	add("C15", backpressureCases)
 	add("C04", backpressureCases)
 	add("C10", backpressureCases)
+	add("C02", sharedMDCases)
+	add("C13", lateWritesCases)
+	add("C07", lateWritesCases)
+	add("C14", lateWritesCases)
+	add("C11", drainOpenCases)
+	add("C10", drainOpenCases)
+	add("C15", sharedMDCases)
 }
